@@ -100,6 +100,13 @@ def parts():
 
 
 def main():
+    if len(sys.argv) > 1 and sys.argv[1] == 'flags':
+        from . import C15e
+        bad, n = C15e.native_flags_probe()
+        print('%d runs of the real program on example.thdm (force_output x running_couplings)' % n)
+        for b in bad:
+            print(b)
+        sys.exit(1 if bad else 0)
     if len(sys.argv) > 1 and sys.argv[1] == 'fill':
         from . import C15d
         from .common import harness_native
